@@ -155,6 +155,8 @@ Definition recipient_of (t : tx) : N :=
 Record config := {
   c_version : Z; c_zerofee : bool; c_gas_price : Z; c_chain : N;
   c_name_price : Z; c_stake_min : Z; c_stake_delay : N;
+  c_fix_f24 : bool;  (* true = FEEDELEGATION debits the fee on the sender object when sender and
+                        receiver are the same account (fixes/F24_*.diff)                     *)
   c_fix_f18 : bool   (* true = contract/name uses the sender's / receiver's own AccountState
                         object when the name owner is that account (fixes/F18_*.diff)     *)
 }.
@@ -269,7 +271,10 @@ Section Ledger.
             if forallb (fun tr => 0 <=? snd tr) trs
                && (transfers_out (a_id receiver) trs <=? a_bal receiver)
                && (base + cfee <=? a_bal (if feedeleg then receiver' else sender'))
-            then (COk, write_storage s' (a_id receiver) ws, sender', receiver', base + cfee)
+            then (COk, write_storage s' (a_id receiver)
+                         (* Create records the deployer under the creator-metadata key (key 0) *)
+                         (if a_deploy receiver then (0%N, Z.of_N (a_id sender)) :: ws else ws),
+                  sender', receiver', base + cfee)
             else (CRuntime, s, sender, receiver, base)
         end
       end
@@ -351,14 +356,16 @@ Section Ledger.
         let cur := match names0 s !! t_name t with Some (_, d) => d | None => 0%N end in
         if (cur =? 0)%N || is_name cur then None else
         let dest := get_address s (t_dest t) in
+        (* owner := the creator recorded in the destination's storage, else the destination *)
+        let owner := match default ∅ (cstor s !! dest) !! 0%N with Some z => Z.to_N z | None => dest end in
         let '(which, ns) := name_state s sender receiver in
         if (which =? 0)%N then
-          let s1 := with_names s (<[t_name t := (dest, dest)]> (names s)) in
+          let s1 := with_names s (<[t_name t := (owner, dest)]> (names s)) in
           Some (name_commit s1 which sender sender receiver)
         else match send_balance sender ns amount with
         | None => None
         | Some (sender, ns) =>
-          let s1 := with_names s (<[t_name t := (dest, dest)]> (names s)) in
+          let s1 := with_names s (<[t_name t := (owner, dest)]> (names s)) in
           Some (name_commit s1 which ns sender receiver)
         end
     | KSetOwner =>
@@ -422,7 +429,9 @@ Section Ledger.
         if negb (validate_max_fee v zf (t_plen t) (t_gaslimit t) (a_bal receiver) gp) then None
         else if t_fddeny t || negb (code (a_new receiver)) then None
         else let '(c, s', sender', receiver', fee) := contract_execute s t sender receiver true in
-             Some (c, s', sender', sub_bal receiver' fee, fee)
+             if c_fix_f24 cfg && (a_id sender' =? a_id receiver')%N
+             then Some (c, s', sub_bal sender' fee, receiver', fee)
+             else Some (c, s', sender', sub_bal receiver' fee, fee)
       else let '(c, s', sender', receiver', fee) := contract_execute s t sender receiver false in
            Some (c, s', sub_bal sender' fee, receiver', fee) in
     match r with
